@@ -184,15 +184,29 @@ def splitRefs (e : AEnc) (rHdr : Nat) (result : AList StrElt) :
     deref (some rHdr); deref (some c); free (some c)
     deref (some ref.hdr)
     if ref.count > 1 && ref.string.len > STRTBL_MIN then do
-      let (e, ok, added) ← strtblAddElement e ref
-      if !ok then do
+      -- the string table owns its strings: a borrowed text-node buffer is copied first
+      let ref' ← (if ref.stat then do
+          let copy ← bufDuplicate (some ref.string)
+          match copy with
+          | none => pure none
+          | some c => pure (some { ref with string := c, stat := false })
+        else pure (some ref))
+      match ref' with
+      | none => do
         strEltDestroy (some ref)
         listDestroy (some (⟨rHdr, rest⟩ : AList StrElt)) (fun x => strEltDestroy (some x))
         listDestroy (some result) (fun x => strEltDestroy (some x))
         pure (e, none)
-      else do
-        if !added then strEltDestroy (some ref)
-        splitRefs e rHdr result rest
+      | some ref => do
+        let (e, ok, added) ← strtblAddElement e ref
+        if !ok then do
+          strEltDestroy (some ref)
+          listDestroy (some (⟨rHdr, rest⟩ : AList StrElt)) (fun x => strEltDestroy (some x))
+          listDestroy (some result) (fun x => strEltDestroy (some x))
+          pure (e, none)
+        else do
+          (if !added then strEltDestroy (some ref) else pure ())
+          splitRefs e rHdr result rest
     else do
       let (result, ok) ← listAppend result ref
       if !ok then do
@@ -366,7 +380,8 @@ def fillHeader (e : AEnc) (h : ABuf) (version publicId : Nat) : Prog (ABuf × Na
     let (h, ok) ← bufAppendData h (some (mbOctets publicId))
     if !ok then pure (h, EAPPEND)
     else do
-      let (h, ok) ← bufAppendData h (some (mbOctets CHARSET_UTF8))
+      -- no charset field in a WBXML 1.0 header (version byte 0x00)
+      let (h, ok) ← (if version != 0 then bufAppendData h (some (mbOctets CHARSET_UTF8)) else pure (h, true))
       if !ok then pure (h, EAPPEND)
       else do
         let (h, ok) ← bufAppendData h (some (mbOctets e.strstblLen))
